@@ -25,6 +25,7 @@ FUNCS = [
     ("distributed_shampoo/utils/shampoo_hybrid_shard_distributor.py", "HybridShardDistributor._get_params_or_grads"),
     ("distributed_shampoo/utils/shampoo_hybrid_shard_distributor.py", "HybridShardDistributor._construct_global_block_info_list"),
     ("distributed_shampoo/utils/shampoo_hybrid_shard_distributor.py", "HybridShardDistributor.update_params"),
+    ("distributed_shampoo/utils/shampoo_hybrid_shard_distributor.py", "HybridShardDistributor.merge_and_block_gradients"),
 ]
 TRUSTED = [
     "ASSUMED contract of DTensor.to_local(): the rank's local shard (dim-0 sharding), a view of the parameter's local storage",
@@ -39,7 +40,7 @@ EXPLANATION = "same-predicate filtering of parameters, gradients and block-info 
 def cases(tier):
     cs = [f"filter/{c}/{''.join(p)}" for c in ("fully", "hybrid") for p in itertools.product("01", repeat=3)]
     cs += [f"blockinfo/{c}" for c in ("fully", "hybrid")]
-    return cs + D.update_params_cases("hybrid")
+    return cs + ["ribare/hybrid"] + D.update_params_cases("hybrid")
 
 
 class Local:
@@ -180,6 +181,8 @@ def run_case(case, tier, seed):
         return _filter_case(case)
     if case.startswith("blockinfo/"):
         return _blockinfo_case(case)
+    if case.startswith("ribare/"):
+        return D.run_ri_bare(case, "hybrid")
     return D.run_update_params(case)
 
 
